@@ -45,18 +45,26 @@ func fragmentingFileNamer() fileNamer {
 	return fileNamerFunc(fragmentFileName)
 }
 
+// dirMarker ends every fragment that is a directory. It is not part of the
+// base64url alphabet, so the file name of one key can never be the directory
+// name needed by another key (file names are prefix-free).
+const dirMarker = "~"
+
 func fragmentFileName(key string) string {
 	encoded := base64.RawURLEncoding.EncodeToString([]byte(key))
 	if len(encoded) <= 255 { // Common filesystem filename limit
 		return encoded
 	}
 
-	// Fragment the encoded string
+	// Fragment the encoded string: directories hold fragmentSize-1 characters
+	// plus the marker, the last fragment (the file) holds the rest.
 	var parts []string
-	for i := 0; i < len(encoded); i += fragmentSize {
-		end := min(i+fragmentSize, len(encoded))
-		parts = append(parts, encoded[i:end])
+	i := 0
+	for len(encoded)-i > fragmentSize {
+		parts = append(parts, encoded[i:i+fragmentSize-1]+dirMarker)
+		i += fragmentSize - 1
 	}
+	parts = append(parts, encoded[i:])
 	return filepath.Join(parts...)
 }
 
@@ -66,6 +74,8 @@ func fragmentingFileNameKeyer() fileNameKeyer {
 
 var filepathSeparatorReplacer = strings.NewReplacer(
 	string(filepath.Separator),
+	"",
+	dirMarker,
 	"",
 )
 
